@@ -207,6 +207,7 @@ pub async fn scenario(line: &str) -> String {
     "peerclose" => peerclose(&p).await,
     "bystander" => bystander(&p).await,
     "subhist" => subhist(&p).await,
+    "retrypace" => retrypace(&p).await,
     "chanleak" => chanleak(&p).await,
     "rchurn" => rchurn(&p).await,
     "cancel" => cancel_scn(&p).await,
@@ -2678,6 +2679,68 @@ async fn bystander(p: &[&str]) -> String {
       ivl,
       6 * ivl as u64 + 2500
     )
+  }
+}
+
+/// `retrypace <reconnect ivl ms> <busy 0|1> <window ms>`
+/// A PUSH connects to a tcp port where nobody listens (RECONNECT_IVL = RECONNECT_IVL_MAX = ivl). With `busy`, other
+/// sockets of the same context are created, bound and closed all the time (plenty of system events). The monitor's
+/// ConnectRetried events are counted over the window: the retries must not come faster than the interval allows.
+async fn retrypace(p: &[&str]) -> String {
+  let ivl: i32 = p[1].parse().unwrap();
+  let busy = p[2] == "1";
+  let window: u64 = p[3].parse().unwrap();
+  let ctx = Context::new().expect("ctx");
+  let l = std::net::TcpListener::bind("127.0.0.1:0").unwrap();
+  let dead = format!("tcp://{}", l.local_addr().unwrap());
+  drop(l);
+  let push = ctx.socket(SocketType::Push).unwrap();
+  let _ = set_i32(&push, o::RECONNECT_IVL, ivl).await;
+  let _ = set_i32(&push, o::RECONNECT_IVL_MAX, ivl).await;
+  let mon = match push.monitor(4096).await {
+    Ok(m) => m,
+    Err(_) => return "setup-error monitor".into(),
+  };
+  if push.connect(&dead).await.is_err() {
+    return "setup-error connect".into();
+  }
+  let stop = std::sync::Arc::new(std::sync::atomic::AtomicBool::new(false));
+  let stop2 = stop.clone();
+  let ctx2 = ctx.clone();
+  let noise = tokio::spawn(async move {
+    while busy && !stop2.load(std::sync::atomic::Ordering::Relaxed) {
+      if let Ok(s) = ctx2.socket(SocketType::Pull) {
+        let _ = s.bind("tcp://127.0.0.1:0").await;
+        let _ = tokio::time::timeout(Duration::from_secs(2), s.close()).await;
+      }
+      tokio::time::sleep(Duration::from_millis(5)).await;
+    }
+  });
+  let t0 = Instant::now();
+  let mut retries = 0usize;
+  while t0.elapsed() < Duration::from_millis(window) {
+    if let Ok(Ok(SocketEvent::ConnectRetried { .. })) = tokio::time::timeout(Duration::from_millis(20), mon.recv()).await {
+      retries += 1;
+    }
+  }
+  stop.store(true, std::sync::atomic::Ordering::Relaxed);
+  let _ = noise.await;
+  let _ = tokio::time::timeout(Duration::from_secs(3), push.close()).await;
+  let _ = tokio::time::timeout(Duration::from_secs(12), ctx.term()).await;
+  let allowed = (window / ivl as u64) as usize + 2;
+  if retries > allowed {
+    format!(
+      "ORACLE-FAIL key=retry-too-fast {} retries in {} ms with RECONNECT_IVL = RECONNECT_IVL_MAX = {} ms (at most {} fit){}",
+      retries,
+      window,
+      ivl,
+      allowed,
+      if busy { " while other sockets of the context were being created and closed" } else { "" }
+    )
+  } else if retries == 0 {
+    "ORACLE-FAIL key=retry-never no retry was reported at all".into()
+  } else {
+    "retrypace=ok".into()
   }
 }
 
